@@ -3,6 +3,7 @@ package rules
 import (
 	"fmt"
 	"go/ast"
+	"go/token"
 	"sort"
 	"strings"
 
@@ -71,6 +72,7 @@ func C15(c *Ctx) {
 	}
 	basicLatinCaseClosure(c, "C15-a")
 	basicLatinNoSkips(c, "C15-a")
+	basicLatinSiblingForms(c, "C15-a")
 	// ---- c
 	wc := load.FuncDecl(bp, "builder", "writeCharClassMatcher")
 	okEmit := false
@@ -339,4 +341,213 @@ func basicLatinNoSkips(c *Ctx, rule string) {
 	sort.Strings(bad)
 	r.Check(len(bad) == 0 && nStores >= 6, rule, "G.builder.BasicLatinLookup:decides-all-128-runes-by-membership-only", "", g.Where(fd.Pos()),
 		fmt.Sprintf("%d table stores, guarded only by range/case/membership tests; no skipping", nStores), strings.Join(bad, "; ")+": the general path tests every class with unicode.Is for every rune, so the table may not skip any")
+}
+
+// basicLatinSiblingForms: two exact agreements between the table computation and the general path.
+// (1) ranges are inclusive at both ends on both sides; (2) a Unicode class decides rune r by
+// unicode.Is(rangeTable(class), fold(r)) with fold = unicode.ToLower exactly under ignoreCase - the same fold the
+// general path applies, exactly under its ignoreCase flag, before it tests any member source.
+func basicLatinSiblingForms(c *Ctx, rule string) {
+	r := c.R
+	g := c.G()
+	if g == nil {
+		return
+	}
+	fd := load.FuncDecl(g.Pkg("builder"), "", "BasicLatinLookup")
+	if fd == nil {
+		return
+	}
+	var params []string
+	for _, f := range fd.Type.Params.List {
+		for _, n := range f.Names {
+			params = append(params, n.Name)
+		}
+	}
+	if len(params) != 4 {
+		return
+	}
+	rangesP, classesP, ic := params[1], params[2], params[3]
+	// ---- general path (every semantic variant): fold and range test
+	type general struct{ loIncl, hiIncl, ok bool }
+	var gen *general
+	for _, v := range c.SemanticVariants() {
+		pf := v.Func("parser", "parseCharClassMatcher")
+		if pf == nil {
+			continue
+		}
+		param := pf.Type.Params.List[0].Names[0].Name
+		var bad []string
+		// fold: `cur = unicode.ToLower(cur)` under exactly <param>.ignoreCase, before the first member loop
+		var foldPos, firstLoop token.Pos
+		ast.Inspect(pf.Body, func(n ast.Node) bool {
+			switch x := n.(type) {
+			case *ast.AssignStmt:
+				if len(x.Lhs) == 1 && nospace(x.Lhs[0]) == "cur" && nospace(x.Rhs[0]) == "unicode.ToLower(cur)" {
+					foldPos = x.Pos()
+					if gs := guardsOf(pf.Body, x.Pos()); len(gs) != 1 || gs[0] != param+".ignoreCase" {
+						bad = append(bad, v.Where(x.Pos())+": the input rune is folded under ["+strings.Join(gs, ";")+"], expected exactly "+param+".ignoreCase: the table is computed for fold-then-test on all three member sources")
+					}
+				}
+			case *ast.RangeStmt:
+				if !firstLoop.IsValid() && strings.HasPrefix(nospace(x.X), param+".") {
+					firstLoop = x.Pos()
+				}
+			case *ast.ForStmt:
+				if !firstLoop.IsValid() && x.Cond != nil && strings.Contains(nospace(x.Cond), param+".ranges") {
+					firstLoop = x.Pos()
+				}
+			}
+			return true
+		})
+		if !foldPos.IsValid() {
+			bad = append(bad, "the general path never folds the input rune (cur = unicode.ToLower(cur))")
+		} else if firstLoop.IsValid() && foldPos > firstLoop {
+			bad = append(bad, "the input rune is folded after a member source was already tested")
+		}
+		// range test
+		cur := general{}
+		ast.Inspect(pf.Body, func(n ast.Node) bool {
+			be, ok := n.(*ast.BinaryExpr)
+			if !ok || be.Op != token.LAND {
+				return true
+			}
+			l, rr := nospace(be.X), nospace(be.Y)
+			if strings.HasPrefix(l, "cur>") && strings.Contains(l, param+".ranges[i]") && strings.HasPrefix(rr, "cur<") && strings.Contains(rr, param+".ranges[i+1]") {
+				cur.ok = true
+				cur.loIncl = strings.HasPrefix(l, "cur>=")
+				cur.hiIncl = strings.HasPrefix(rr, "cur<=")
+			}
+			return true
+		})
+		if !cur.ok {
+			bad = append(bad, "range test `cur >= ranges[i] && cur <= ranges[i+1]` not found")
+		} else if gen == nil {
+			gg := cur
+			gen = &gg
+		} else if *gen != cur {
+			bad = append(bad, "range test differs between variants")
+		}
+		r.Check(len(bad) == 0, rule, "T.parseCharClassMatcher:general-path-fold-and-range-test", v.Name, v.Where(pf.Pos()), "folds under ignoreCase only, before all member tests; inclusive range test", strings.Join(bad, "; "))
+	}
+	// ---- (1) range loop of the table
+	var rangeLoop *ast.ForStmt
+	var classLoop *ast.RangeStmt
+	for _, st := range fd.Body.List {
+		switch x := st.(type) {
+		case *ast.ForStmt:
+			if x.Cond != nil && strings.Contains(nospace(x.Cond), "len("+rangesP+")") {
+				rangeLoop = x
+			}
+		case *ast.RangeStmt:
+			if nospace(x.X) == classesP {
+				classLoop = x
+			}
+		}
+	}
+	if rangeLoop == nil || gen == nil {
+		r.Unk(rule, "G.builder.BasicLatinLookup:range-bounds-as-general-path", "", g.Where(fd.Pos()), "range loop or general range test not found")
+	} else {
+		var inner *ast.ForStmt
+		ast.Inspect(rangeLoop.Body, func(n ast.Node) bool {
+			if f, ok := n.(*ast.ForStmt); ok && inner == nil {
+				inner = f
+			}
+			return true
+		})
+		okB := false
+		detail := "no inner rune loop"
+		if inner != nil && inner.Init != nil && inner.Cond != nil {
+			init, cond := "", nospace(inner.Cond)
+			if as, ok := inner.Init.(*ast.AssignStmt); ok {
+				init = nospace(as.Rhs[0])
+			}
+			jv := ""
+			if as, ok := inner.Init.(*ast.AssignStmt); ok {
+				jv = nospace(as.Lhs[0])
+			}
+			loIncl := init == rangesP+"[i]"
+			hiIncl := strings.Contains(cond, jv+"<="+rangesP+"[i+1]")
+			hiExcl := strings.Contains(cond, jv+"<"+rangesP+"[i+1]")
+			post := ""
+			if ids, ok := inner.Post.(*ast.IncDecStmt); ok {
+				post = nospace(ids.X) + ids.Tok.String()
+			}
+			okB = loIncl == gen.loIncl && (hiIncl || hiExcl) && hiIncl == gen.hiIncl && post == jv+"++"
+			detail = fmt.Sprintf("the table enumerates runes from %s while `%s` (step %s); the general path tests the range with lower bound inclusive=%t, upper bound inclusive=%t: the end points of a range are decided differently", init, cond, post, gen.loIncl, gen.hiIncl)
+		}
+		r.Check(okB, rule, "G.builder.BasicLatinLookup:range-bounds-as-general-path", "", g.Where(rangeLoop.Pos()), "both ends inclusive on both sides", detail)
+	}
+	// ---- (2) class loop of the table
+	if classLoop == nil || classLoop.Value == nil {
+		r.Unk(rule, "G.builder.BasicLatinLookup:class-decision-as-general-path", "", g.Where(fd.Pos()), "class loop not found")
+		return
+	}
+	cl := nospace(classLoop.Value)
+	var bad []string
+	rt := ""
+	var inner *ast.ForStmt
+	for _, st := range classLoop.Body.List {
+		switch x := st.(type) {
+		case *ast.AssignStmt:
+			if len(x.Rhs) == 1 && nospace(x.Rhs[0]) == "rangeTable("+cl+")" {
+				rt = nospace(x.Lhs[0])
+			}
+		case *ast.ForStmt:
+			inner = x
+		}
+	}
+	if rt == "" {
+		bad = append(bad, "the class is not resolved with rangeTable("+cl+")")
+	}
+	if inner == nil {
+		bad = append(bad, "no rune loop")
+	} else {
+		rv := ""
+		if as, ok := inner.Init.(*ast.AssignStmt); ok {
+			rv = nospace(as.Lhs[0])
+		}
+		// reaching definitions of the tested rune
+		stores := 0
+		ast.Inspect(inner.Body, func(n ast.Node) bool {
+			as, ok := n.(*ast.AssignStmt)
+			if !ok {
+				return true
+			}
+			ix, ok := as.Lhs[0].(*ast.IndexExpr)
+			if !ok || !strings.HasSuffix(nospace(ix.X), "basicLatinChars") {
+				return true
+			}
+			stores++
+			if nospace(ix.Index) != rv {
+				bad = append(bad, g.Where(as.Pos())+": stores the decision of rune "+rv+" at index "+nospace(ix.Index))
+			}
+			if nospace(as.Rhs[0]) != "true" {
+				bad = append(bad, g.Where(as.Pos())+": stores "+nospace(as.Rhs[0])+" for a member")
+			}
+			gs := guardsOf(inner.Body, as.Pos())
+			if len(gs) != 1 || !strings.HasPrefix(gs[0], "unicode.Is("+rt+",") {
+				bad = append(bad, g.Where(as.Pos())+": membership is decided by ["+strings.Join(gs, ";")+"], expected exactly unicode.Is("+rt+", <folded rune>)")
+				return true
+			}
+			tested := strings.TrimSuffix(strings.TrimPrefix(gs[0], "unicode.Is("+rt+","), ")")
+			// tested must be a local defined as rv and re-assigned unicode.ToLower(rv) exactly under ic
+			var defs []string
+			ast.Inspect(inner.Body, func(m ast.Node) bool {
+				if a2, ok := m.(*ast.AssignStmt); ok && len(a2.Lhs) == 1 && nospace(a2.Lhs[0]) == tested && a2.Pos() < as.Pos() {
+					defs = append(defs, nospace(a2.Rhs[0])+"["+strings.Join(guardsOf(inner.Body, a2.Pos()), ";")+"]")
+				}
+				return true
+			})
+			sort.Strings(defs)
+			if got := strings.Join(defs, " "); got != rv+"[] unicode.ToLower("+rv+")["+ic+"]" {
+				bad = append(bad, g.Where(as.Pos())+": the tested rune "+tested+" is defined as {"+got+"}, expected "+rv+" and, exactly under "+ic+", unicode.ToLower("+rv+") - the fold of the general path")
+			}
+			return true
+		})
+		if stores != 1 {
+			bad = append(bad, fmt.Sprintf("%d table stores in the class loop, expected 1", stores))
+		}
+	}
+	sort.Strings(bad)
+	r.Check(len(bad) == 0, rule, "G.builder.BasicLatinLookup:class-decision-as-general-path", "", g.Where(classLoop.Pos()), "table[r] = unicode.Is(rangeTable(class), ignoreCase ? ToLower(r) : r), as the general path", strings.Join(bad, "; "))
 }
